@@ -44,7 +44,7 @@ PQ_Q = Obj("dataclass", "Q", (Fld("p", Opt(PQ_P), has_default=True, default=None
 K_ = Obj("dataclass", "K", (Fld("a_b", INT), Fld("c", INT, alias="z", no_override_alias=True, has_default=True, default=1)), class_aliaser="upper")
 L_ = Obj("dataclass", "L", (Fld("a", INT, has_default=True, default=0), Fld("b", INT, has_default=True, default=0)), cons=cons(min_props=1))
 M_ = Obj("dataclass", "M", (Fld("some_name", INT), Fld("inner", Obj("dataclass", "MI", (Fld("deep_name", INT, has_default=True, default=3),)), flatten=True), Fld("other_name", Coll("list", STR), factory="list")))
-N_ = Obj("dataclass", "N", (Fld("n", Ann(INT, cons(min=0)), cons=cons(max=5)), Fld("s", Ann(STR, cons(min_len=1)), has_default=True, default="d")))
+N_ = Obj("dataclass", "N", (Fld("n", Ann(INT, cons(min=0)), cons=cons(max=5)), Fld("s", Ann(STR, cons(min_len=1)), has_default=True, default="d"), Fld("z", NewT("Delta2", INT, cons(min=-100, max=100)), has_default=True, default=1, cons=cons(min=0))))
 A2 = Obj("dataclass", "A2", (Fld("a", INT, has_default=True, default=1), Fld("b", STR, has_default=True, default="x")))
 FB2 = Obj("dataclass", "FB2", (Fld("inner", A2, flatten=True), Fld("z", INT, has_default=True, default=0)))
 COLOR = Enm("Color", (("R", 1), ("G", 2)))
@@ -74,6 +74,23 @@ def type_pool(tier: str) -> List[TD]:
         Ann(STR, cons(min_len=1, max_len=2)),
         Ann(STR, cons(pattern="^a")),
         Ann(STR, cons(min_len=2, pattern="^a")),
+    ]
+    # constraints declared at two levels (type-level schema, then annotation / field / per-call),
+    # including zero-valued bounds on either side
+    DELTA = NewT("Delta", INT, cons(min=-100, max=100))
+    ZMAX = NewT("ZMax", INT, cons(max=0))
+    constrained += [
+        Ann(Ann(INT, cons(min=0)), cons(max=5)),
+        Ann(Ann(INT, cons(max=5)), cons(min=0)),
+        Ann(DELTA, cons(min=0)),
+        Ann(DELTA, cons(max=0)),
+        Ann(ZMAX, cons(min=-3)),
+        Ann(Ann(STR, cons(max_len=0)), cons(pattern="^a*$")),
+        Ann(Ann(STR, cons(min_len=1)), cons(max_len=0)),
+        Ann(Ann(Coll("list", INT), cons(max_items=0)), cons(unique=True)),
+        Ann(Ann(Coll("list", INT), cons(min_items=1)), cons(max_items=0)),
+        Ann(Ann(FLOAT, cons(exc_min=0)), cons(exc_max=0)),
+        Ann(Ann(Mapp(STR, INT), cons(max_props=0)), cons(min_props=0)),
     ]
     elems = [INT, STR, FLOAT, Opt(INT), Ann(INT, cons(min=0))]
     colls = [Coll(k, t) for k in ("list", "sequence", "collection", "mutableseq", "set", "abstractset", "frozenset", "tuplevar") for t in elems]
